@@ -7,6 +7,7 @@ from harness.ns import QNAMES
 
 ID = "C19"
 LEAN_MODULES = ["Pypika.Props.C19"]
+TRACE_BUILDER = True   # builder calls made by this check are also run through Pypika.B.step (harness/trace.py)
 THEOREMS = ["Pypika.C19.empty_left", "Pypika.C19.empty_right", "Pypika.C19.invert_empty", "Pypika.C19.all_eq_fold",
             "Pypika.C19.any_eq_fold", "Pypika.C19.fold_nonempty", "Pypika.C19.insert_empty", "Pypika.C19.where_never_empty",
             "Pypika.C19.where_all"]
